@@ -27,6 +27,10 @@ func main() {
 		{JournalMode: "delete", PageSize: 4096, CacheSize: 10, Steps: 30, Seed: 6, ModeSwitch: true},
 		{JournalMode: "delete", PageSize: 4096, CacheSize: 10, Steps: 30, Seed: 6, ModeSwitch: true, Replica: true},
 	}
+	ws = append(ws,
+		t3.Workload{JournalMode: "persist", PageSize: 1024, CacheSize: 8, Steps: 40, Seed: 14, ModeSwitch: true, Replica: true},
+		t3.Workload{JournalMode: "truncate", PageSize: 4096, CacheSize: 8, Steps: 40, Seed: 15, ModeSwitch: true, Replica: true},
+		t3.Workload{JournalMode: "wal", PageSize: 4096, CacheSize: 8, Steps: 40, Seed: 16, ModeSwitch: true, Replica: true})
 	only := os.Getenv("T3_ONLY")
 	for i, w := range ws {
 		if only != "" && only != fmt.Sprint(i) {
